@@ -17,6 +17,7 @@ import (
 
 type HarnessSpec struct {
 	Fn       string         `json:"fn"`
+	Pkg      string         `json:"pkg"` // overrides the property's package
 	Quick    map[string]int `json:"quick"`
 	Thorough map[string]int `json:"thorough"`
 	Covers   []string       `json:"covers"`
@@ -83,6 +84,7 @@ type replayJob struct {
 	Label    string   `json:"label,omitempty"`
 	Msg      string   `json:"message,omitempty"`
 	Expect   []string `json:"expected_events,omitempty"`
+	Pkg      string   `json:"pkg,omitempty"`
 	out      []string
 }
 
@@ -265,13 +267,15 @@ func cmdCheck(args []string) int {
 		fmt.Fprintln(os.Stderr, "MACHINERY-FAULT load:", err)
 		return 2
 	}
-	if err := e.runInit(spec.Pkg == "cmd"); err != nil {
+	needCmd := spec.Pkg == "cmd"
+	for _, h := range spec.Harnesses {
+		if h.Pkg == "cmd" {
+			needCmd = true
+		}
+	}
+	if err := e.runInit(needCmd); err != nil {
 		fmt.Fprintln(os.Stderr, "MACHINERY-FAULT", err)
 		return 2
-	}
-	pkg := e.yq
-	if spec.Pkg == "cmd" {
-		pkg = e.cmd
 	}
 	onlySet := map[string]bool{}
 	for _, n := range strings.Split(*only, ",") {
@@ -309,6 +313,14 @@ func cmdCheck(args []string) int {
 		} else {
 			e.cfg.MaxSteps = cfg.MaxSteps
 		}
+		pkgName := spec.Pkg
+		if h.Pkg != "" {
+			pkgName = h.Pkg
+		}
+		pkg := e.yq
+		if pkgName == "cmd" {
+			pkg = e.cmd
+		}
 		st, err := e.explore(h.Fn, pkg)
 		if err != nil {
 			fmt.Fprintln(os.Stderr, "MACHINERY-FAULT", err)
@@ -341,19 +353,25 @@ func cmdCheck(args []string) int {
 			if len(failJobs[k]) >= 3 {
 				continue
 			}
-			j := &replayJob{Harness: h.Fn, Params: params, Trace: f.Trace, Property: *prop, Kind: f.Kind, Label: f.Label, Msg: f.Msg, Expect: f.Events}
+			j := &replayJob{Harness: h.Fn, Params: params, Trace: f.Trace, Property: *prop, Kind: f.Kind, Label: f.Label, Msg: f.Msg, Expect: f.Events, Pkg: pkgName}
 			failJobs[k] = append(failJobs[k], j)
 			jobs = append(jobs, j)
 		}
 		for _, s := range st.samples {
-			j := &replayJob{Harness: h.Fn, Params: params, Trace: s.Trace, Property: *prop, Kind: "sample", Expect: s.Events}
+			j := &replayJob{Harness: h.Fn, Params: params, Trace: s.Trace, Property: *prop, Kind: "sample", Expect: s.Events, Pkg: pkgName}
 			sampleJobs = append(sampleJobs, j)
 			jobs = append(jobs, j)
 		}
 	}
-	if err := runNativeReplays(cfg, hf, spec.Pkg, jobs); err != nil {
-		fmt.Fprintln(os.Stderr, "MACHINERY-FAULT", err)
-		return 2
+	byPkg := map[string][]*replayJob{}
+	for _, j := range jobs {
+		byPkg[j.Pkg] = append(byPkg[j.Pkg], j)
+	}
+	for pk, js := range byPkg {
+		if err := runNativeReplays(cfg, hf, pk, js); err != nil {
+			fmt.Fprintln(os.Stderr, "MACHINERY-FAULT", err)
+			return 2
+		}
 	}
 	// witness replays: native observable lines must equal the engine's
 	witnessDisagree := 0
@@ -534,6 +552,9 @@ func doReplayFile(cfg Config, path string) int {
 	if err != nil {
 		fmt.Fprintln(os.Stderr, err)
 		return 2
+	}
+	if j.Pkg != "" {
+		pkg = j.Pkg
 	}
 	if err := runNativeReplays(cfg, hf, pkg, []*replayJob{&j}); err != nil {
 		fmt.Fprintln(os.Stderr, err)
